@@ -80,6 +80,10 @@ def run(repo, chk):
     chk.analysed["_enter acquisitions"] = f["acquires"]
     from .shared import refused_enter_obligations
     refused_enter_obligations(repo, chk, "R17.1")
+    from .shared import call_exit_order_obligations
+    call_exit_order_obligations(repo, chk, "R17.2", "a subscriber that deactivates its probe at the end of a call does not have the probe's handlers put back by the call's own reset")
+    from .shared import refused_exit_obligations
+    refused_exit_obligations(repo, chk, "R17.1")
     chk.ob("R17.1", "probe.Probe._enter:guard-present", f["tests"] == 1, en.where, "exactly one test of self._activated")
     chk.ob("R17.1", "probe.Probe._enter:guard-dominates-acquisitions", f["dominated"], en.where,
            f"every path to an acquisition ({f['acquires']}) passes the `_activated` test first")
